@@ -2572,6 +2572,8 @@ impl<'a, A: Write, B: Write> Gen<'a, A, B> {
         if self.r.pct(8) {
             hub_bank += self.spiky(1_000_000); // unsolicited transfer to the hub
             self.cnt("state:rogue_transfer:yes");
+        } else {
+            self.cnt("state:rogue_transfer:no");
         }
         if hub_bank > 0 {
             self.emit(Op::Gift { addr: s("hub"), denom: s("usei"), amt: hub_bank });
@@ -2595,9 +2597,127 @@ impl<'a, A: Write, B: Write> Gen<'a, A, B> {
         info
     }
 
+    /// Re-derive the invariants of DESIGN.md 11.6 from the synthesised world itself, through the
+    /// real queries / storage items (a synthesiser bug must not go unnoticed: panics on violation).
+    fn synth_selfcheck(&mut self) {
+        let w = self.w();
+        let q_hold = |a: &str| -> basset::reward::HolderResponse {
+            query_contract(w, REWARD, &basset::reward::QueryMsg::Holder { address: s(a) }).expect("holder query")
+        };
+        // token ledgers: sum of balances = total supply
+        let mut supply = [0u128; 2];
+        for (i, t) in [Tok::Bsei, Tok::Stsei].into_iter().enumerate() {
+            let sum: u128 = ADDRS.iter().map(|a| tok_bal(w, t, a)).sum();
+            let info: cw20::TokenInfoResponse =
+                query_contract(w, tok_idx(t), &cw20::Cw20QueryMsg::TokenInfo {}).expect("token info");
+            assert_eq!(sum, info.total_supply.u128(), "synth: {} ledger", t.name());
+            supply[i] = sum;
+        }
+        // reward mirror, indexes, solvency
+        let rs = basset_sei_reward::state::read_state(&StoreRef::new(w, REWARD)).expect("reward state");
+        assert_eq!(rs.total_balance.u128(), supply[0], "synth: reward total = bSei supply");
+        let mut accrued = cosmwasm_std::Uint256::zero();
+        for a in ADDRS.iter() {
+            let h = q_hold(a);
+            assert_eq!(h.balance.u128(), tok_bal(w, Tok::Bsei, a), "synth: mirror of {}", a);
+            assert!(h.index <= rs.global_index, "synth: holder index <= global index");
+            let d = rs.global_index.atomics().u128() - h.index.atomics().u128();
+            accrued += cosmwasm_std::Uint256::from(d) * cosmwasm_std::Uint256::from(h.balance.u128())
+                + cosmwasm_std::Uint256::from(h.pending_rewards.atomics().u128());
+        }
+        assert!(
+            accrued <= cosmwasm_std::Uint256::from(rs.prev_reward_balance.u128()) * cosmwasm_std::Uint256::from(E18),
+            "synth: accrued rewards <= prev_reward_balance"
+        );
+        assert!(rs.prev_reward_balance.u128() <= w.balance("reward", "uusd"), "synth: prev <= reward bank");
+        // books, pools, rates
+        let st = hub_state(w).expect("hub state");
+        let p = hub_params(w).expect("hub params");
+        let cb = basset_sei_hub::state::CURRENT_BATCH.load(&StoreRef::new(w, HUB)).expect("batch");
+        let (bb, bst) = (st.total_bond_bsei_amount.u128(), st.total_bond_stsei_amount.u128());
+        let delegated = self.hub_delegated();
+        assert!(delegated <= bb + bst && bb + bst - delegated <= (bb + bst) / 8 + 1, "synth: books vs delegations");
+        let regd = reg_vals(w);
+        let unregistered = hub_delegation_vals(w).into_iter().filter(|v| !regd.contains(v)).count();
+        assert!(unregistered <= 1, "synth: at most one unregistered validator");
+        let claims_b = supply[0] + cb.requested_bsei_with_fee.u128();
+        let claims_st = supply[1] + cb.requested_stsei.u128();
+        assert!(claims_b == 0 || bb > 0, "synth: bSei claims backed");
+        assert!(claims_st == 0 || bst > 0, "synth: stSei claims backed");
+        let (ber, ser) = (st.bsei_exchange_rate.atomics().u128(), st.stsei_exchange_rate.atomics().u128());
+        let near = |a: u128, b: u128| a.max(b) - a.min(b) <= 1_000_000_000_000;
+        assert!(near(ber, rate_of(bb, claims_b)) || ber == E18 / 2 || ber == E18, "synth: stored bSei rate");
+        assert!(near(ser, rate_of(bst, claims_st)) || ser == E18 / 5 * 4 || ser == 3 * E18, "synth: stored stSei rate");
+        assert!(bb + bst <= E18 && supply[0] <= E18 && supply[1] <= E18, "synth: magnitudes");
+        // batches
+        let hist = hub_history(w);
+        let c = cb.id;
+        assert!((1..=40).contains(&c) && hist.len() as u64 == c - 1, "synth: history ids 1..c-1");
+        let now = w.now;
+        let mut due = 0u128; // payouts still owed for released batches
+        let mut expect_queue: Vec<(u128, u128)> = vec![]; // (completion, amount) of immature batches
+        let mut delivered = 0u128;
+        for (k, h) in hist.iter().enumerate() {
+            assert_eq!(h.batch_id, k as u64 + 1);
+            if k > 0 {
+                assert!(h.time > hist[k - 1].time + p.epoch_period, "synth: entries spaced by more than the epoch");
+            }
+            assert_eq!(h.released, h.batch_id <= st.last_processed_batch, "synth: released = prefix 1..LPB");
+            let (mut sb, mut sst) = (0u128, 0u128);
+            for a in ADDRS.iter() {
+                if let Ok(e) = basset_sei_hub::state::read_unbond_wait_list(&StoreRef::new(w, HUB), h.batch_id, s(a)) {
+                    sb += e.bsei_amount.u128();
+                    sst += e.stsei_amount.u128();
+                    if h.released {
+                        due += mul_rate(e.stsei_amount.u128(), h.stsei_withdraw_rate.atomics().u128())
+                            + mul_rate(e.bsei_amount.u128(), h.bsei_withdraw_rate.atomics().u128());
+                    }
+                }
+            }
+            let expected = mul_rate(h.bsei_amount.u128(), h.bsei_applied_exchange_rate.atomics().u128())
+                + mul_rate(h.stsei_amount.u128(), h.stsei_applied_exchange_rate.atomics().u128());
+            if h.released {
+                assert!(sb <= h.bsei_amount.u128() && sst <= h.stsei_amount.u128(), "synth: released claims <= entry");
+                assert!(h.bsei_withdraw_rate <= h.bsei_applied_exchange_rate && h.stsei_withdraw_rate <= h.stsei_applied_exchange_rate);
+                assert!(h.time + p.unbonding_period <= now, "synth: released batches are matured");
+            } else {
+                assert!(sb == h.bsei_amount.u128() && sst == h.stsei_amount.u128(), "synth: unreleased claims = entry");
+                assert!(h.bsei_withdraw_rate == h.bsei_applied_exchange_rate && h.stsei_withdraw_rate == h.stsei_applied_exchange_rate);
+                if h.time + p.unbonding_period <= now {
+                    delivered += expected; // upper bound (may have been slashed)
+                } else {
+                    expect_queue.push(((h.time + p.unbonding_period) as u128, expected));
+                }
+            }
+        }
+        assert_eq!(st.last_unbonded_time, hist.last().map(|h| h.time).unwrap_or(START_TIME), "synth: last_unbonded_time");
+        // open batch
+        let (mut ob, mut ost) = (0u128, 0u128);
+        for a in ADDRS.iter() {
+            if let Ok(e) = basset_sei_hub::state::read_unbond_wait_list(&StoreRef::new(w, HUB), c, s(a)) {
+                ob += e.bsei_amount.u128();
+                ost += e.stsei_amount.u128();
+            }
+        }
+        assert!(ob == cb.requested_bsei_with_fee.u128() && ost == cb.requested_stsei.u128(), "synth: open batch sums");
+        // funding
+        let phb = st.prev_hub_balance.u128();
+        let bank = w.balance("hub", "usei");
+        assert!(bank >= phb && phb >= due, "synth: hub bank >= prev_hub_balance >= released claims");
+        assert!(bank - phb <= delivered + 1_000_000, "synth: undistributed arrivals bounded by the matured batches");
+        assert_eq!(w.ut, p.unbonding_period, "synth: chain unbonding time = hub unbonding period");
+        for (t, amt) in expect_queue {
+            let got: u128 = w.unbonding.iter().filter(|u| u.delegator == "hub" && u.completion == t).map(|u| u.amount).sum();
+            assert!(got <= amt && (amt == 0 || got >= amt / 2), "synth: unbonding queue funds batch maturing at {}", t);
+        }
+        assert!(w.unbonding.iter().all(|u| u.completion > now as u128), "synth: queue entries are immature");
+        self.cnt("state:selfcheck:ok");
+    }
+
     /// 8-14 ordinary operations after the synthesised state, with outcome / event statistics
     fn synth_run(&mut self, len: u64) {
         let info = self.synth_setup();
+        self.synth_selfcheck();
         let bucket = |x: u64| -> &'static str {
             match x {
                 0 => "0",
